@@ -356,6 +356,19 @@ def explore_c05(rng, tier, res, deep=False):
         for _ in range(per):
             qs.append("$[?" + g.logical_or(1) + "]" if rng.random() < 0.7 else g.query())
         compile_cases(res, desc, qs, "C05")
+    # configured bounds that are zero, one-sided, tiny, or exclude zero (a bound of 0 is a bound, not "unset"), with
+    # every integer position of a query at bound-1 / bound / bound+1 and at 0, +-1
+    big = 2**53 - 1
+    for lo, hi in [(0, big), (-big, 0), (0, 0), (-1, 1), (0, 5), (-5, 0), (1, 3), (-3, -1), (0, 1), (-1, 0), (2, big), (-big, -2)]:
+        desc = dict(real.DEFAULT_ENVDESC)
+        desc.update(minIdx=lo, maxIdx=hi)
+        ints = sorted({lo - 1, lo, lo + 1, hi - 1, hi, hi + 1, 0, 1, -1, 2, -2})
+        qs = []
+        for i in ints:
+            for pl in ("$[{}]", "$[{}:]", "$[:{}]", "$[::{}]", "$..[{}]", "$[0, {}]" if lo <= 0 <= hi else "$[{}, {}]", "$[?@[{}] == 1]", "$[?count(@[0:{}]) > 1]" if lo <= 0 <= hi else "$[?count(@[:{}]) > 1]",
+                       "$.a[{}].b", "$[?@[{}:]]", "$[?$[{}]]", "$[ {} : {} : {} ]"):
+                qs.append(pl.replace("{}", str(i)))
+        compile_cases(res, desc, qs, "C05")
 
 
 # ---------------------------------------------------------------------------------------------
@@ -614,6 +627,16 @@ def explore_c19(rng, tier, res, deep=False):
         for style in "'\"":
             lit = style + body + style
             fixed += [f"$[{lit}]", f"$.a[{lit}]", f"$[?@.a == {lit}]", f"$\n[\n{lit}\n]", f"$[?match(@.a, {lit})]", f"$['k', {lit}]"]
+    # almost-valid filters: operands and operators missing, doubled or misplaced inside parentheses and arguments, on one
+    # line and on several (whatever rejects them has to say where)
+    for _ in range(150 if tier != "thorough" else 3000):
+        q = operand_soup(rng)
+        if rng.random() < 0.5:
+            q = q.replace(" ", rng.choice(["\n", " \n ", "\r\n", " "]), rng.randint(1, 3))
+        qs.add(q)
+    fixed += ["$[?(@.a, @.b)]", "$[?(@.a ! @.b)]", "$[?(1 2 3)]", "$[?(@.a == 1 2 3)]", "$[?count((@.a, @.b)) == 1]", "$[?(@.a,\n@.b)]", "$[?(\r\n@.a ! @.b\r\n)]",
+              "$[?(@.a @.b)]", "$[?(@.a == 1, 2)]", "$[?((@.a) (@.b))]", "$[?(@.a : @.b)]", "$[?(@.a * @.b)]", "$[?(@.a ? @.b)]", "$[?(@.a $ @.b)]", "$[?(@ @ @)]",
+              "$[?length((1, 2)) == 1]", "$[?(1 , 2 , 3)]", "$[?(true false null)]", "$[?('a' 'b' 'c')]", "$[?(@.a ] @.b)]", "$[?(@.a 'x' @.b)]"]
     qs = fixed + sorted(qs - set(fixed))
     # the same literal / name / number texts compiled before at OTHER offsets (valid queries, long prefixes, other
     # lines), then rejected queries in which those texts sit where they are not allowed: a position reported for an
@@ -665,8 +688,8 @@ def explore_c19(rng, tier, res, deep=False):
             lines.append(f"position\t{wire.enc_str(q)}\t{off}")
             recs.append((q, off, got))
         except Exception as exc:  # noqa: BLE001
-            res.violations.append({"property": "C13", "query": q, "observed": "PY:" + type(exc).__name__, "expected": "JSONPathError",
-                                   "what": "non-JSONPath exception"})
+            res.violations.append({"property": "C19", "query": q, "observed": "PY:" + type(exc).__name__ + ": " + str(exc)[:80], "expected": "a JSONPathError with an offset inside the query",
+                                   "what": "compile() rejected the query with an exception that identifies no position in the query text"})
     out = model.run_batch_parallel(lines)
     for (q, off, got), o in zip(recs, out):
         if o != f"{got[0]} {got[1]}":
@@ -1026,7 +1049,9 @@ def explore_c08(rng, tier, res, deep=False):
         "path() returns exactly that node, and values()/paths()/items() agree with the nodes. Thorough adds every "
         "code point U+0000..U+10FFFF as a one-character name. Non-trivial = distinct (document, node path)."
     )
-    env = real.make_env(real.DEFAULT_ENVDESC)
+    env_det = real.make_env(real.DEFAULT_ENVDESC)
+    # the nodes a nondeterministic environment returns are nodes too: same obligations, whatever order they come in
+    env_nd = real.make_env(dict(real.DEFAULT_ENVDESC, nd=True))
     n = sizes(tier, deep, 300, 6000)
     names_all = list(C08_NAMES)
     if tier == "thorough":
@@ -1038,6 +1063,11 @@ def explore_c08(rng, tier, res, deep=False):
         names = rng.sample(names_all, min(len(names_all), 6))
         doc = gen.gen_container(rng, depth=3, names=names)
         queries = ["$..*", "$.*", "$[-1]", "$[::-1]", "$[-2:]", "$..[-1]", "$..[::-2]", "$[?@]", "$..[?@]", walk_query(rng, doc, g)]
+        env = env_nd if it % 3 == 2 else env_det
+        if it % 3 == 2:
+            # scalars in front of containers, containers between scalars: positions are positions in the array itself
+            doc = rng.choice([[1, doc], [None, "s", doc, 2, [3, {"a": [0, [4]]}]], {"k": [True, doc, 0, {"a": 1}]}])
+            queries = ["$..*", "$..[0]", "$..[-1]", "$..a", "$..[?@]", "$..[::-1]", "$..*..*", "$.*..*"]
         for q in rng.sample(queries, 4):
             res.evaluations += 1
             try:
